@@ -20,7 +20,9 @@ W_FD = 1002
 class Baton:
     ORDER = ('child', 'reader')
 
-    def __init__(self, rng, rec):
+    def __init__(self, rng, rec, script=None):
+        self.script = list(script) if script is not None else None     # scripted 2-way decisions (exhaustive walks)
+        self.decisions = []                                            # (number of runnable actors, index chosen)
         self.cv = threading.Condition()
         self.state = {'child': 'running', 'reader': 'running'}
         self.pending = {}
@@ -79,7 +81,15 @@ class Baton:
             self.deadlock = True
             self.cv.notify_all()
             return
-        self.turn = runnable[self.rng.randrange(len(runnable))] if len(runnable) > 1 else runnable[0]
+        if len(runnable) > 1:
+            if self.script is not None:
+                idx = self.script.pop(0) if self.script else 0
+            else:
+                idx = self.rng.randrange(len(runnable))
+            self.decisions.append((len(runnable), idx))
+            self.turn = runnable[idx]
+        else:
+            self.turn = runnable[0]
         self.cv.notify_all()
 
 
@@ -146,13 +156,13 @@ class RunShim:
     """cfg: data (bytes the child writes to stderr), writes (chunk sizes), cap (pipe capacity),
     status (exit status), sched_seed, environ (parent's environment)"""
 
-    def __init__(self, data, writes, cap, status, sched_seed, environ, rec, on_read=None, exit_early=False):
+    def __init__(self, data, writes, cap, status, sched_seed, environ, rec, on_read=None, exit_early=False, script=None):
         self.data = data
         self.writes = list(writes) or [1 << 20]
         self.status = status
         self.rec = rec
         self.on_read = on_read
-        self.baton = Baton(random.Random('%s/baton' % sched_seed), rec)
+        self.baton = Baton(random.Random('%s/baton' % sched_seed), rec, script=script)
         self.pipe = Pipe(cap)
         self.environ = dict(environ)
         self.calls = []           # every subprocess.run call: (args, kwargs)
